@@ -16,3 +16,5 @@ open Just.C10
 #print axioms file_roundtrip
 #print axioms file_roundtrip_exact
 #print axioms file_format_idempotent
+#print axioms parsed_file_is_wellformed
+#print axioms format_of_any_file
